@@ -341,6 +341,15 @@ func c19SetParam(ps []c19Param, np c19Param) []c19Param {
 	return append(ps, np)
 }
 
+func c19AddOnce(l []string, s string) []string {
+	for _, x := range l {
+		if x == s {
+			return l
+		}
+	}
+	return append(l, s)
+}
+
 func c19DelParam(ps []c19Param, k string) []c19Param {
 	res := []c19Param{}
 	for _, p := range ps {
@@ -634,11 +643,11 @@ func c19Perturbations() []c19Pert {
 		lim("above everything", "limit-not-binding", func(g *c19Gen) float64 { return g.far[k] })
 	}
 	// the document as a whole
-	add("unknown key Scenario.Bogus", "", func(g *c19Gen, d *c19Doc) bool { d.Unknown = append(d.Unknown, "Scenario.Bogus"); return true })
-	add("unknown key Scenario.Reporting.Bogus", "", func(g *c19Gen, d *c19Doc) bool { d.Unknown = append(d.Unknown, "Scenario.Reporting.Bogus"); return true })
-	add("unknown key Annealer.Bogus", "", func(g *c19Gen, d *c19Doc) bool { d.Unknown = append(d.Unknown, "Annealer.Bogus"); return true })
-	add("unknown key Model.Bogus", "", func(g *c19Gen, d *c19Doc) bool { d.Unknown = append(d.Unknown, "Model.Bogus"); return true })
-	add("unknown section", "", func(g *c19Gen, d *c19Doc) bool { d.Unknown = append(d.Unknown, "[Bogus]"); return true })
+	add("unknown key Scenario.Bogus", "", func(g *c19Gen, d *c19Doc) bool { d.Unknown = c19AddOnce(d.Unknown, "Scenario.Bogus"); return true })
+	add("unknown key Scenario.Reporting.Bogus", "", func(g *c19Gen, d *c19Doc) bool { d.Unknown = c19AddOnce(d.Unknown, "Scenario.Reporting.Bogus"); return true })
+	add("unknown key Annealer.Bogus", "", func(g *c19Gen, d *c19Doc) bool { d.Unknown = c19AddOnce(d.Unknown, "Annealer.Bogus"); return true })
+	add("unknown key Model.Bogus", "", func(g *c19Gen, d *c19Doc) bool { d.Unknown = c19AddOnce(d.Unknown, "Model.Bogus"); return true })
+	add("unknown section", "", func(g *c19Gen, d *c19Doc) bool { d.Unknown = c19AddOnce(d.Unknown, "[Bogus]"); return true })
 	add("syntax error", "", func(g *c19Gen, d *c19Doc) bool { d.SyntaxOk = false; return true })
 	add("MetaData.FilePath string", "", func(g *c19Gen, d *c19Doc) bool { d.MetaOk = true; return true })
 	add("MetaData.FilePath int", "", func(g *c19Gen, d *c19Doc) bool { d.MetaBad = true; return true })
@@ -866,7 +875,9 @@ func runC19(args []string) {
 	if len(args) > 0 {
 		tier = args[0]
 	}
-	g := &c19Gen{p: newPrng(1919)}
+	// (the shared splitmix streams of two consecutive seeds are shifted copies of each other: decorrelate through the salt)
+	seed, _ := strconv.ParseUint(os.Getenv("VERIF_SEED"), 10, 64)
+	g := &c19Gen{p: newPrng(1919 + seed*0xD1B54A32D192ED03)}
 	ds := "ValidModel.csv"
 	base := catchOpen(catchTestdata(ds), nil)
 	emit(base.export(ds))
@@ -888,9 +899,9 @@ func runC19(args []string) {
 		}
 	}
 	// (2) every perturbation alone, on `rounds` applicable bases each
-	rounds, randomDocs := 2, 120
+	rounds, randomDocs := 3, 200
 	if tier == "thorough" {
-		rounds, randomDocs = 9, 1500
+		rounds, randomDocs = 9, 9000
 	}
 	for _, pt := range perts {
 		got := 0
@@ -909,7 +920,7 @@ func runC19(args []string) {
 				d.Hazard = pt.hazard
 			}
 			if tier == "thorough" && d.Runs > 1 {
-				d.Runs = 8
+				d.Runs = 10
 			}
 			docs = append(docs, d)
 			got++
